@@ -29,7 +29,12 @@ RULE = ("TLC enumerates every valid ScenarioID field combination of cooperative 
         "returned object is assigned, the text is parsed again (ScenarioID.from_benchmark_id, "
         "CommonRoadSolutionReader.fromstring twice, and for a slice a scenario file read twice with convert_to_2d in "
         "between): the second result must have the fields of the text, equal a freshly built id, print as the text "
-        "and be a new object). Planning problems: Reorder gives cooperative lists every injective list of "
+        "and be a new object). Rejected assignments: every public field of an id is assigned invalid values of several "
+        "kinds (country 'Germany', 'deu', 'DE', '', 'XXX', 'ZAMM', 276; map name None / 5; numbers 0, negative, None; "
+        "behaviour 'X', 't'; prediction 0, [1,0], []; cooperative 'yes'; version '2019x'); when the assignment raises, "
+        "the id must equal a copy taken before, have the same fields, print identically and still round-trip, also "
+        "inside a Solution (and for the raising cost_function / vehicle_model setters of a PlanningProblemSolution); "
+        "an invalid value that is silently accepted is outside the statement (no verdict). Planning problems: Reorder gives cooperative lists every injective list of "
         "planning problem ids over {3,7,12} (non-ascending, 12 before 3); random solutions use random distinct ids in "
         "random order; the printed lists must be positional w.r.t. Solution.planning_problem_ids and the written "
         "trajectory nodes, and after write -> read every planning problem id keeps its (model, type, cost). "
@@ -472,6 +477,70 @@ def _exec_reparse(case, other, attr, ev):
                    "res": _exc(ex)})
 
 
+# ---------------------------------------------------------------- rejected assignments
+_BAD = {("country", "name"): "Germany", ("country", "lower"): "deu", ("country", "alpha2"): "DE", ("country", "empty"): "",
+        ("country", "unknown3"): "XXX", ("country", "long"): "ZAMM", ("country", "int"): 276,
+        ("map", "none"): None, ("map", "int"): 5,
+        ("map_id", "zero"): 0, ("map_id", "negative"): -1, ("map_id", "none"): None,
+        ("config", "zero"): 0, ("config", "negative"): -3,
+        ("beh", "unknown"): "X", ("beh", "lower"): "t",
+        ("pred", "zero"): 0, ("pred", "list-zero"): [1, 0], ("pred", "empty-list"): [],
+        ("coop", "text"): "yes", ("ver", "unknown"): "2019x"}
+
+
+def _exec_rej(case):
+    import copy
+    from commonroad.common.solution import (CostFunction, PlanningProblemSolution, Solution, VehicleModel,
+                                            VehicleType)
+    from commonroad.scenario.scenario import ScenarioID
+    f, pk, fld, bad = case["f"], case["pk"], case["fld"], case["bad"]
+    attr, value = _ATTR[fld], _BAD[(fld, bad)]
+    sig = "scenario_id/rejected-set:" + fld
+    sid = _mk_id(f, pk)
+    before = copy.deepcopy(sid)
+    # the key is "field", not "fld": the id must stay f (the trace spec applies After() to events carrying fld and b)
+    e = {"op": "reject", "sig": sig, "f": f, "pk": pk, "field": fld, "bad": bad, "raised": 0, "exc": "", "pf": _NOF,
+         "toks": [], "eq_op": 0, "eq_po": 0, "rt": 0}
+    try:
+        setattr(sid, attr, value)
+    except Exception as ex:
+        e.update(raised=1, exc=type(ex).__name__, pf=_fields(sid), eq_op=_eq(sid, before), eq_po=_eq(before, sid))
+        try:
+            text = str(sid)
+            e["toks"] = tokens(text)
+            e["rt"] = _eq(ScenarioID.from_benchmark_id(text, sid.scenario_version), sid)
+        except Exception:
+            pass
+    ev = [e]
+    if not e["raised"]:
+        return ev
+    # the same id inside a solution: the rejected assignment must not change the solution's benchmark id either
+    vs, cs = [{"m": "PM", "t": 2}], ["WX1"]
+    sid2 = _mk_id(f, pk)
+    pps = PlanningProblemSolution(1, VehicleModel.PM, VehicleType(2), CostFunction.WX1, _traj("PM"))
+    sol = Solution(sid2, [pps])
+    sol.benchmark_id
+    base = {"vs": vs, "cs": cs, "pp": [1], "ord": [1], "f": f, "pk": pk}
+    try:
+        setattr(sol.scenario_id, attr, value)
+    except Exception:
+        try:
+            ev.append(dict(base, op="sol_print", sig="solution/rejected-set:" + fld, toks=tokens(sol.benchmark_id),
+                           res="ok"))
+        except Exception as ex:
+            ev.append(dict(base, op="sol_print", sig="solution/rejected-set:" + fld, toks=[], res=_exc(ex)))
+    # validating setters of the planning problem solution feed the vehicle / cost lists of the id (on a slice of the cases)
+    if fld == "country" and bad == "name":
+        for what, attr2, val2 in (("cost_function", "cost_function", CostFunction.SA1),      # SA1 is not supported for PM
+                                  ("vehicle_model", "vehicle_model", VehicleModel.KS)):      # a PM trajectory does not fit KS
+            try:
+                setattr(pps, attr2, val2)
+            except Exception:
+                ev.append(dict(base, op="sol_print", sig="solution/rejected-set:" + what,
+                               toks=tokens(Solution(_mk_id(f, pk), [pps]).benchmark_id), res="ok"))
+    return ev
+
+
 # ---------------------------------------------------------------- driver interface
 def model_check(ctx):
     ctx.mc("MC_BenchmarkId", "MC_BenchmarkId3.cfg" if ctx.thorough else "MC_BenchmarkId.cfg", coverage=True,
@@ -481,6 +550,8 @@ def model_check(ctx):
     # id lists printed in ascending planning-problem-id order while the planning problem solutions keep their order
     # (a seeded change, not shipped): the alignment law must give a counterexample with non-ascending ids
     ctx.mc_expect("MC_BenchmarkId", "DEV_BenchmarkId_2.cfg", "LawSolAligned")
+    # a validating setter that stores the value before it raises (seeded, not shipped)
+    ctx.mc_expect("MC_BenchmarkId", "DEV_BenchmarkId_3.cfg", "LawRejectAtomic")
 
 
 def _rand_num(rng):
@@ -559,13 +630,19 @@ def cases(ctx):
                    "src": "random"})
     for _ in range(5000 if ctx.thorough else 600):
         cs.append(_rand_set(rng, countries))
+    bad = sorted(_BAD)
+    for _ in range(3000 if ctx.thorough else 500):
+        f, pk = _rand_fields(rng, countries)
+        fld, kind = rng.choice(bad)
+        cs.append({"kind": "rej", "pk": pk, "f": f, "fld": fld, "bad": kind, "src": "random"})
     return cs
 
 
 def execute(case):
     use_repo()
     k = case["kind"]
-    return {"ev": _exec_id(case) if k == "id" else _exec_set(case) if k == "set" else _exec_sol(case)}
+    return {"ev": _exec_id(case) if k == "id" else _exec_set(case) if k == "set" else _exec_rej(case) if k == "rej"
+            else _exec_sol(case)}
 
 
 def _fkey(f):
@@ -579,6 +656,8 @@ def nontrivial(case):
         if f["beh"] == "None" and not f["config"]:
             return None
         return ("id", case["pk"]) + _fkey(f)
+    if case["kind"] == "rej":
+        return ("rej", case["pk"], case["fld"], case["bad"]) + _fkey(f)
     if case["kind"] == "set":
         return ("set", case["pk"], case["fld"], case["bpk"]) + _fkey(f) + _fkey(case["b"])
     return ("sol", case["pk"], tuple((x["m"], x["t"], x["c"]) for x in case["vs"]), tuple(case.get("pp") or ())) + _fkey(f)
